@@ -386,9 +386,11 @@ impl<K: Kit> Drv<K> {
         self.pending_sample_budget = Some(n + 256);
         self.solve_ns(t, true)
     }
-    /// Exactly one iteration.
+    /// Exactly one iteration: a budget of half a sampler tick, so that the first clock check
+    /// (elapsed 0) passes and the second (one sample later) does not - whether the planner
+    /// compares with `>` or with `>=`.
     pub fn step(&mut self) -> Res {
-        self.solve_iters(0)
+        self.solve_iters(1)
     }
 
     /// Mutates the planner's public parameter fields the way a user can between calls:
